@@ -17,6 +17,7 @@ def _scan(P):
     if hasattr(P, '_entry_scan'):
         return P._entry_scan
     value_refs, foreign_calls = set(), set()
+    foreign_sites = {}
     for m in P.mods.values():
         parents = m.parents
         for n in ast.walk(m.tree):
@@ -28,9 +29,11 @@ def _scan(P):
                               and n.value.func.id == 'super')
                 if is_callee and not recv_self and not recv_super:
                     foreign_calls.add(n.attr)
+                    foreign_sites.setdefault(n.attr, []).append((m, n))
                 if not is_callee and recv_self and isinstance(n.ctx, ast.Load):
                     value_refs.add(n.attr)
     P._entry_scan = (value_refs, foreign_calls)
+    P._entry_foreign_sites = foreign_sites
     return P._entry_scan
 
 
@@ -58,7 +61,7 @@ def entry_points(P, c):
             out[nm] = 'public'
         elif nm in value_refs:
             out[nm] = 'action'
-        elif nm in foreign_calls:
+        elif nm in foreign_calls and _may_receive(P, c, nm):
             out[nm] = 'foreign'
     return out
 
@@ -69,3 +72,84 @@ def internal_methods(P, c):
     for k in c.mro:
         allm |= set(k.methods)
     return sorted(n for n in allm if n not in ep and not n.startswith('__'))
+
+
+def _element_classes(P, attr):
+    """classes whose instances are put into the container attribute `attr` as `self` (`x.attr.append(self)`), or None when something
+    else is put there as well"""
+    cache = P.__dict__.setdefault('_entry_elem_classes', {})
+    if attr in cache:
+        return cache[attr]
+    out, unknown = set(), False
+    for m in P.mods.values():
+        for n in ast.walk(m.tree):
+            if isinstance(n, ast.Call) and isinstance(n.func, ast.Attribute) and n.func.attr in ('append', 'insert', 'extend', 'appendleft') \
+                    and isinstance(n.func.value, ast.Attribute) and n.func.value.attr == attr:
+                v = n.args[-1] if n.args else None
+                if n.func.attr != 'extend' and isinstance(v, ast.Name) and v.id == 'self':
+                    cf = m.enclosing(n) if hasattr(m, 'enclosing') else None
+                    c = None
+                    for cs in P.by_name.values():
+                        for k in cs:
+                            if k.mod is m and any(x is n for f in k.methods.values() for x in ast.walk(f)):
+                                c = k
+                    if c is None:
+                        unknown = True
+                    else:
+                        out.add(c)
+                else:
+                    # putting back what was taken out of the same container adds no new kind of element
+                    back = False
+                    if isinstance(v, ast.Name):
+                        from .norm import single_defs
+                        for cs in P.by_name.values():
+                            for k in cs:
+                                if k.mod is m:
+                                    for f in k.methods.values():
+                                        if any(x is n for x in ast.walk(f)):
+                                            d = single_defs(f).get(v.id)
+                                            if (isinstance(d, ast.Call) and isinstance(d.func, ast.Attribute) and d.func.attr in ('pop', 'popleft')
+                                                    and isinstance(d.func.value, ast.Attribute) and d.func.value.attr == attr) or \
+                                               (isinstance(d, ast.Subscript) and isinstance(d.value, ast.Attribute) and d.value.attr == attr):
+                                                back = True
+                    if not back:
+                        unknown = True
+            if isinstance(n, ast.Assign) and any(isinstance(t, ast.Subscript) and isinstance(t.value, ast.Attribute) and t.value.attr == attr for t in n.targets):
+                unknown = True
+    cache[attr] = None if unknown or not out else out
+    return cache[attr]
+
+
+def _may_receive(P, c, name):
+    """can an instance of c be the receiver of one of the foreign calls of `name`?  Unknown receivers can; a receiver taken out of a container
+    that only holds instances of certain classes (`part._group_pathing.pop()`: only GroupPath objects are ever put there) can only be one of those"""
+    from .norm import single_defs
+    _scan(P)
+    for m, n in P._entry_foreign_sites.get(name, []):
+        recv = n.value
+        for _ in range(3):
+            if isinstance(recv, ast.Name):
+                fn = None
+                for cs in P.by_name.values():
+                    for k in cs:
+                        if k.mod is m:
+                            for f in k.methods.values():
+                                if any(x is n for x in ast.walk(f)):
+                                    fn = f
+                d = single_defs(fn).get(recv.id) if fn is not None else None
+                if d is None:
+                    break
+                recv = d
+            else:
+                break
+        attr = None
+        if isinstance(recv, ast.Call) and isinstance(recv.func, ast.Attribute) and recv.func.attr in ('pop', 'popleft') and isinstance(recv.func.value, ast.Attribute):
+            attr = recv.func.value.attr
+        elif isinstance(recv, ast.Subscript) and isinstance(recv.value, ast.Attribute):
+            attr = recv.value.attr
+        if attr is None:
+            return True
+        ks = _element_classes(P, attr)
+        if ks is None or any(k in c.mro for k in ks):
+            return True
+    return False
